@@ -57,6 +57,9 @@ type gt struct {
 	elem   *gt
 	key    *gt
 	fields []gfield
+	// named: a struct type declared in Go source (c20NamedFamilies) instead of one made by
+	// reflect.StructOf; such types can be different and still print the same String()
+	named reflect.Type
 }
 
 var rtypeOfKind = map[reflect.Kind]reflect.Type{
@@ -67,6 +70,9 @@ var rtypeOfKind = map[reflect.Kind]reflect.Type{
 }
 
 func (t *gt) rtype() reflect.Type {
+	if t.named != nil {
+		return t.named
+	}
 	switch t.k {
 	case gBool:
 		return reflect.TypeOf(false)
@@ -137,6 +143,9 @@ func (t *gt) String() string {
 		it := make([]string, len(t.fields))
 		for i, f := range t.fields {
 			it[i] = f.name + " " + f.t.String()
+		}
+		if t.named != nil { // a declared type: its printed name is part of the scenario
+			return "(type " + t.named.String() + " struct{" + strings.Join(it, "; ") + "})"
 		}
 		return "struct{" + strings.Join(it, "; ") + "}"
 	}
@@ -580,6 +589,18 @@ func genF32(rng *hx.Rng, key bool) float32 {
 
 // genVal fills v (settable, of type t.rtype()) with a random value
 func genVal(rng *hx.Rng, t *gt, v reflect.Value, key bool, budget int) {
+	genValOpt(rng, t, v, key, budget, vopt{})
+}
+
+// vopt: stale = slices get a backing array whose elements beyond the length are populated too
+// (what a slice looks like after it was cut by a shorter conversion); small = containers are
+// biased to nil / empty / one element (the second answer stored in a reply variable)
+type vopt struct{ stale, small bool }
+
+func genValOpt(rng *hx.Rng, t *gt, v reflect.Value, key bool, budget int, opt vopt) {
+	genVal := func(rng *hx.Rng, t *gt, v reflect.Value, key bool, budget int) {
+		genValOpt(rng, t, v, key, budget, opt)
+	}
 	switch t.k {
 	case gBool:
 		v.SetBool(rng.Bool())
@@ -603,24 +624,36 @@ func genVal(rng *hx.Rng, t *gt, v reflect.Value, key bool, budget int) {
 		v.SetFloat(genF64(rng, key))
 	case gSlice:
 		n := rng.Pick(0, 1, 2, 3, 4)
+		if opt.small {
+			n = rng.Pick(0, 0, 0, 1, 1, 2)
+		}
 		if budget <= 0 && n > 1 {
 			n = 1
 		}
 		if n == 0 && rng.Bool() {
-			return // nil slice
+			v.Set(reflect.Zero(v.Type())) // nil slice
+			return
 		}
-		s := reflect.MakeSlice(v.Type(), n, n+rng.Intn(2))
-		for i := 0; i < n; i++ {
+		c := n + rng.Intn(2)
+		if opt.stale {
+			c = n + rng.Pick(0, 1, 2)
+		}
+		s := reflect.MakeSlice(v.Type(), c, c)
+		for i := 0; i < c && (i < n || opt.stale); i++ {
 			genVal(rng, t.elem, s.Index(i), false, budget-1)
 		}
-		v.Set(s)
+		v.Set(s.Slice(0, n))
 	case gMap:
 		n := rng.Pick(0, 1, 2, 3, 4)
+		if opt.small {
+			n = rng.Pick(0, 0, 0, 1, 1, 2)
+		}
 		if budget <= 0 && n > 1 {
 			n = 1
 		}
 		if n == 0 && rng.Bool() {
-			return // nil map
+			v.Set(reflect.Zero(v.Type())) // nil map
+			return
 		}
 		m := reflect.MakeMap(v.Type())
 		for i := 0; i < n; i++ {
@@ -678,6 +711,39 @@ func coqVal(t *gt, v reflect.Value) string {
 	}
 }
 
+// coqDirty prints what a destination holds before a conversion as a Conv.dval term: the deep
+// structure of v with every slice given by its length and its whole backing array (Cap()
+// elements) — the elements beyond the length are what convertSlice finds in place when it
+// re-extends the slice.
+func coqDirty(t *gt, v reflect.Value) string {
+	switch t.k {
+	case gSlice:
+		if v.IsNil() {
+			return "DSlice 0 []"
+		}
+		w := v.Slice(0, v.Cap())
+		it := make([]string, w.Len())
+		for i := range it {
+			it[i] = coqDirty(t.elem, w.Index(i))
+		}
+		return fmt.Sprintf("DSlice %d [%s]", v.Len(), strings.Join(it, "; "))
+	case gMap:
+		var it []string
+		for _, k := range v.MapKeys() {
+			it = append(it, "("+coqVal(t.key, k)+", "+coqDirty(t.elem, v.MapIndex(k))+")")
+		}
+		sort.Strings(it)
+		return "DMap [" + strings.Join(it, "; ") + "]"
+	case gStruct:
+		it := make([]string, len(t.fields))
+		for i, f := range t.fields {
+			it[i] = coqDirty(f.t, v.Field(i))
+		}
+		return "DStruct [" + strings.Join(it, "; ") + "]"
+	}
+	return "DVal (" + coqVal(t, v) + ")"
+}
+
 // leavesGo: scalar leaves of v as a sorted multiset of texts
 func leavesGo(t *gt, v reflect.Value, acc *[]string) {
 	switch t.k {
@@ -723,6 +789,16 @@ func hasNonEmptyMap(t *gt, v reflect.Value) bool {
 // (positions, keys, lower-cased field names); written on the values only, independently of the
 // conversion code.  Returns "" or a description of the first difference.
 func agreeGo(ta, tb *gt, a, b reflect.Value, path string) string {
+	return agreeGoX(ta, tb, a, b, path, false)
+}
+
+// extraEntries = true: map entries of b under keys that a does not have are not a difference
+// (used only to recognise the known finding map_keeps_old_entries: if the result agrees with the
+// source up to such entries, entries kept from the previous content are the whole difference)
+func agreeGoX(ta, tb *gt, a, b reflect.Value, path string, extraEntries bool) string {
+	agreeGo := func(ta, tb *gt, a, b reflect.Value, path string) string {
+		return agreeGoX(ta, tb, a, b, path, extraEntries)
+	}
 	if ta.class() != tb.class() {
 		return path + ": kinds differ"
 	}
@@ -741,7 +817,7 @@ func agreeGo(ta, tb *gt, a, b reflect.Value, path string) string {
 			}
 		}
 	case gMap:
-		if a.Len() != b.Len() {
+		if a.Len() != b.Len() && !(extraEntries && a.Len() < b.Len()) {
 			return fmt.Sprintf("%s: %d entries became %d", path, a.Len(), b.Len())
 		}
 		for _, k := range a.MapKeys() {
@@ -824,7 +900,11 @@ type c20obs struct {
 }
 
 func convertReal(t2 *gt, src reflect.Value, byPtr bool) (o c20obs) {
-	dst := reflect.New(t2.rtype())
+	return convertInto(reflect.New(t2.rtype()), src, byPtr)
+}
+
+// convertInto: ConvertFrom(dst, src) where dst (a pointer) may point to a value that is not fresh
+func convertInto(dst reflect.Value, src reflect.Value, byPtr bool) (o c20obs) {
 	o.dst = dst.Elem()
 	defer func() {
 		if e := recover(); e != nil {
@@ -867,145 +947,293 @@ func probeC20(res *hx.Result) bool {
 	return on
 }
 
-func runC20(res *hx.Result, rng *hx.Rng, tier string, outdir string) {
-	res.Rule = "case = (source type, target type, source value) over bool/string/10 integer kinds/float32/float64/slice/map/struct, depth <= 3; " +
-		"targets are derived from the source type by widening, field permutation and re-casing (compatible) and then perturbed at one place " +
-		"(class change, narrowing, sign change, missing/extra/ambiguous field) for the rest; " +
-		"non-trivial = the source type contains a map or a container nested in a container; distinct by sha256 of (types, canonical value)"
-	// hx.NewRng(seed) and hx.NewRng(seed+1) produce the same stream shifted by one draw (the seed is
-	// multiplied by the generator's own increment); re-seeding from the first output decorrelates them
-	rng = hx.NewRng(rng.U64())
-	n := 1000
-	if tier == "thorough" {
-		n = 40000
+// probeC20Keeps replays the witness of C20_refuted_map_keeps_old_entries: a destination map that
+// already holds an entry
+func probeC20Keeps(res *hx.Result) bool {
+	dst := map[int16]int16{7: 7}
+	err := conversion.ConvertFrom(&dst, map[int8]int8{1: 5})
+	_, kept := dst[7]
+	if err != nil || len(dst) < 1 || len(dst) > 2 || (len(dst) == 2) != kept {
+		res.Fail("probe", fmt.Sprintf("dst := map[int16]int16{7:7}; ConvertFrom(&dst, map[int8]int8{1:5}) gave %v, err=%v: neither one converted entry nor that entry next to the old one", dst, err))
+		return false
 	}
-	defect := probeC20(res)
-	cf := hx.NewCases(outdir, "C20", "From QV Require Import Conv C20Run.", "mismatches cfg_obs cases", res, "cases", "ccase")
-	cf.Extra = append(cf.Extra, "Local Open Scope string_scope.",
-		fmt.Sprintf("Definition cfg_obs : cfg := {| map_value_into_key := %s |}.", hx.Bool(defect)))
+	var back map[int8]int8
+	errb := conversion.ConvertFrom(&back, dst)
+	res.Switch("map_keeps_old_entries", kept, fmt.Sprintf("dst := map[int16]int16{7: 7}; conversion.ConvertFrom(&dst, map[int8]int8{1: 5}) leaves dst = %v (expected map[1:5]: "+
+		"the entry 7:7 is not the source's); converting dst back into a fresh map[int8]int8 gives %v, err=%v (expected map[1:5]): "+
+		"convertMap stores into the map the destination already holds and never removes what was there", dst, back, errb))
+	return kept
+}
 
-	one := func(t1, t2 *gt, kind string) {
-		src := reflect.New(t1.rtype()).Elem()
-		genVal(rng, t1, src, false, 2)
-		byPtr := rng.Bool()
-		o := convertReal(t2, src, byPtr)
-		canon := coqVal(t1, src)
-		desc := fmt.Sprintf("%s: %s -> %s, value %s", kind, t1, t2, canon)
-		comp := compatGo(t1, t2)
-		other := otherKindReached(t2, t1, src, false)
-		known := defect && hasNonEmptyMap(t1, src)
-		fail := func(oracle, detail string) {
-			if known {
-				res.FailKnown(oracle, detail, "map_value_into_key")
-			} else {
-				res.Fail(oracle, detail)
-			}
+// c20env: what one run shares between its scenario families
+type c20env struct {
+	res    *hx.Result
+	rng    *hx.Rng
+	cf     *hx.Cases
+	defect bool // switch map_value_into_key observed on
+	keeps  bool // switch map_keeps_old_entries observed on
+}
+
+func (e *c20env) emit(t1, t2 *gt, canon string, comp, other bool, resTerm, oldTerm, desc string) {
+	e.cf.Add("cases", fmt.Sprintf("{| c_from := %s; c_to := %s; c_val := %s; c_compat := %s; c_other := %s; c_res := %s; c_old := %s |}",
+		t1.coq(), t2.coq(), canon, hx.Bool(comp), hx.Bool(other), resTerm, oldTerm), desc)
+}
+
+// evaluate runs conversion.ConvertFrom(dst, src) for src : t1 and dst : *t2 (fresh when dirty is
+// false, otherwise holding whatever the scenario left there), applies the property oracles to
+// what the implementation did and writes the case for the model.  It reports whether the
+// conversion returned without error.
+func (e *c20env) evaluate(t1, t2 *gt, src, dst reflect.Value, dirty bool, kind string) bool {
+	res, rng := e.res, e.rng
+	oldTerm, oldDesc := "None", ""
+	if dirty {
+		old := coqDirty(t2, dst.Elem())
+		oldTerm = "Some (" + old + ")"
+		oldDesc = fmt.Sprintf(" into a destination that holds %s (DSlice length [whole backing array])", old)
+	}
+	byPtr := rng.Bool()
+	o := convertInto(dst, src, byPtr)
+	canon := coqVal(t1, src)
+	desc := fmt.Sprintf("%s: %s -> %s, value %s%s", kind, t1, t2, canon, oldDesc)
+	comp := compatGo(t1, t2)
+	other := otherKindReached(t2, t1, src, false)
+	known := e.defect && hasNonEmptyMap(t1, src)
+	fail := func(oracle, detail string) {
+		if known {
+			res.FailKnown(oracle, detail, "map_value_into_key")
+		} else {
+			res.Fail(oracle, detail)
 		}
-		resTerm := "None"
-		switch {
-		case o.panicked != "":
-			res.Fail("panic", fmt.Sprintf("ConvertFrom panicked (%s) on %s", o.panicked, desc))
-			return
-		case o.err == nil:
-			resTerm = "Some (" + coqVal(t2, o.dst) + ")"
-		}
-		// ---- property oracles, on the implementation's own behaviour ----
-		if comp {
-			if o.err != nil {
-				fail("compatible-refused", fmt.Sprintf("%s: ConvertFrom returned an error for structurally compatible types: %v", desc, o.err))
-			} else {
-				if d := agreeGo(t1, t2, src, o.dst, "value"); d != "" {
-					fail("value-preserved", fmt.Sprintf("%s: converted value is %s; %s", desc, coqVal(t2, o.dst), d))
+	}
+	resTerm := "None"
+	switch {
+	case o.panicked != "":
+		res.Fail("panic", fmt.Sprintf("ConvertFrom panicked (%s) on %s", o.panicked, desc))
+		return false
+	case o.err == nil:
+		resTerm = "Some (" + coqVal(t2, o.dst) + ")"
+	}
+	// ---- property oracles, on the implementation's own behaviour ----
+	if comp {
+		if o.err != nil {
+			fail("compatible-refused", fmt.Sprintf("%s: ConvertFrom returned an error for structurally compatible types: %v", desc, o.err))
+		} else {
+			preserved := false
+			if d := agreeGo(t1, t2, src, o.dst, "value"); d != "" {
+				detail := fmt.Sprintf("%s: converted value is %s; %s", desc, coqVal(t2, o.dst), d)
+				if dirty && e.keeps && !known && agreeGoX(t1, t2, src, o.dst, "value", true) == "" {
+					// the result is the source plus map entries the destination held before: the known finding, nothing else
+					res.FailKnown("value-preserved", detail, "map_keeps_old_entries")
 				} else {
-					var la, lb []string
-					leavesGo(t1, src, &la)
-					leavesGo(t2, o.dst, &lb)
-					sort.Strings(la)
-					sort.Strings(lb)
-					if strings.Join(la, "|") != strings.Join(lb, "|") {
-						fail("leaves", fmt.Sprintf("%s: leaves of the result %v differ from the source's %v", desc, lb, la))
-					}
+					fail("value-preserved", detail)
 				}
+			} else {
+				preserved = true
+				var la, lb []string
+				leavesGo(t1, src, &la)
+				leavesGo(t2, o.dst, &lb)
+				sort.Strings(la)
+				sort.Strings(lb)
+				if strings.Join(la, "|") != strings.Join(lb, "|") {
+					fail("leaves", fmt.Sprintf("%s: leaves of the result %v differ from the source's %v", desc, lb, la))
+				}
+			}
+			if preserved || !dirty {
 				back := convertReal(t1, o.dst, byPtr)
 				if back.panicked != "" || back.err != nil || coqVal(t1, back.dst) != canon {
 					fail("convert-back", fmt.Sprintf("%s: converting the result %s back gives %s (err %v %s)", desc, coqVal(t2, o.dst), coqVal(t1, back.dst), back.err, back.panicked))
 				}
 			}
-		} else if t1.class() != t2.class() && o.err == nil {
-			res.Fail("other-kind-accepted", fmt.Sprintf("%s: kinds of different classes were converted, result %s", desc, coqVal(t2, o.dst)))
-		} else if other && o.err == nil && otherKindReached(t2, t1, src, true) {
-			// reached outside map elements: the known convertMap defect cannot be the reason
-			res.Fail("other-kind-accepted", fmt.Sprintf("%s: a key, element or field of a kind of another class was converted, result %s", desc, coqVal(t2, o.dst)))
-		} else if other && o.err == nil {
-			fail("other-kind-accepted", fmt.Sprintf("%s: an element, key or field of a kind of another class was converted, result %s", desc, coqVal(t2, o.dst)))
+			if preserved && dirty {
+				// the way back into a variable that is not fresh either (the source side re-uses its variable too)
+				bd := reflect.New(t1.rtype())
+				genValOpt(rng, t1, bd.Elem(), false, 2, vopt{stale: true})
+				bold := coqDirty(t1, bd.Elem())
+				val2 := coqVal(t2, o.dst)
+				back := convertInto(bd, o.dst, byPtr)
+				bdesc := fmt.Sprintf("%s: converting the result %s back into a %s that holds %s", desc, val2, t1, bold)
+				bres := "None"
+				switch {
+				case back.panicked != "":
+					res.Fail("panic", fmt.Sprintf("ConvertFrom panicked (%s) on %s", back.panicked, bdesc))
+				case back.err != nil:
+					fail("convert-back", fmt.Sprintf("%s returns an error: %v", bdesc, back.err))
+				default:
+					bres = "Some (" + coqVal(t1, back.dst) + ")"
+					if coqVal(t1, back.dst) != canon {
+						detail := fmt.Sprintf("%s gives %s", bdesc, coqVal(t1, back.dst))
+						if e.keeps && !known && agreeGoX(t1, t1, src, back.dst, "value", true) == "" {
+							res.FailKnown("convert-back", detail, "map_keeps_old_entries")
+						} else {
+							fail("convert-back", detail)
+						}
+					}
+				}
+				if back.panicked == "" {
+					res.Dist("dirty:way-back")
+					e.emit(t2, t1, val2, compatGo(t2, t1), otherKindReached(t1, t2, o.dst, false), bres, "Some ("+bold+")", "way back of "+desc)
+				}
+			}
 		}
-		if other {
-			res.Dist("other-kind-reached")
-		}
-		nontrivial := t1.hasMap() || (t1.depth() >= 2)
-		res.Count(t1.coq()+"|"+t2.coq()+"|"+canon, nontrivial)
-		res.Dist("pair:" + kind)
-		res.Dist(fmt.Sprintf("depth:%d", t1.depth()))
-		if t1.hasMap() {
-			res.Dist("with-map")
-		}
-		if o.err != nil {
-			res.Dist("result:error")
+	} else if t1.class() != t2.class() && o.err == nil {
+		res.Fail("other-kind-accepted", fmt.Sprintf("%s: kinds of different classes were converted, result %s", desc, coqVal(t2, o.dst)))
+	} else if other && o.err == nil && otherKindReached(t2, t1, src, true) {
+		// reached outside map elements: the known convertMap defect cannot be the reason
+		res.Fail("other-kind-accepted", fmt.Sprintf("%s: a key, element or field of a kind of another class was converted, result %s", desc, coqVal(t2, o.dst)))
+	} else if other && o.err == nil {
+		fail("other-kind-accepted", fmt.Sprintf("%s: an element, key or field of a kind of another class was converted, result %s", desc, coqVal(t2, o.dst)))
+	}
+	if other {
+		res.Dist("other-kind-reached")
+	}
+	nontrivial := t1.hasMap() || (t1.depth() >= 2)
+	res.Count(t1.coq()+"|"+t2.coq()+"|"+canon+"|"+oldTerm, nontrivial)
+	res.Dist("pair:" + kind)
+	res.Dist(fmt.Sprintf("depth:%d", t1.depth()))
+	if t1.hasMap() {
+		res.Dist("with-map")
+	}
+	if o.err != nil {
+		res.Dist("result:error")
+	} else {
+		res.Dist("result:ok")
+	}
+	if dirty {
+		res.Dist("destination:not-fresh")
+	} else {
+		res.Dist("destination:fresh")
+	}
+	if !comp && t1.class() == t2.class() {
+		res.Dist("not-judged(same class, outside the compatible fragment)")
+	}
+	res.Sample(desc + " => " + resTerm)
+	e.emit(t1, t2, canon, comp, other, resTerm, oldTerm, desc)
+	return o.err == nil
+}
+
+// c20GenPair draws a (source type, target type) pair: compatible by construction, then left as
+// it is or moved out of the compatible fragment at one place
+func c20GenPair(rng *hx.Rng, depth int) (*gt, *gt, string) {
+	t1 := c20GenType(rng, depth)
+	t2 := widen(rng, t1)
+	kind := "compatible"
+	switch r := rng.Intn(10); {
+	case r < 4:
+	case r < 5: // reverse direction of a compatible pair: narrowing everywhere
+		t1, t2 = t2, t1
+		kind = "reversed"
+		if compatGo(t1, t2) {
+			kind = "compatible"
 		} else {
-			res.Dist("result:ok")
+			var ss []site
+			sites(t2, false, &ss)
+			// a narrowed map key could collide: result would depend on iteration order
+			for _, s := range ss {
+				if s.isKey {
+					kind = ""
+				}
+			}
+			if kind == "" {
+				t1, t2 = t2, t1
+				kind = "compatible"
+			}
 		}
-		if !comp && t1.class() == t2.class() {
-			res.Dist("not-judged(same class, outside the compatible fragment)")
+	case r < 6: // unrelated top-level kinds
+		for {
+			t2 = c20GenType(rng, 1)
+			if t2.class() != t1.class() {
+				break
+			}
 		}
-		res.Sample(desc + " => " + resTerm)
-		cf.Add("cases", fmt.Sprintf("{| c_from := %s; c_to := %s; c_val := %s; c_compat := %s; c_other := %s; c_res := %s |}",
-			t1.coq(), t2.coq(), canon, hx.Bool(comp), hx.Bool(other), resTerm), desc)
+		kind = "top-class-mismatch"
+	case r < 8:
+		if k := perturb(rng, t2); k != "" {
+			kind = k
+		}
+	default: // the same edits on the source side (the target keeps the compatible shape)
+		if k := perturb(rng, t1); k != "" {
+			kind = "source-" + k
+		}
+	}
+	return t1, t2, kind
+}
+
+// reusedDestination: one destination variable receives several conversions in a row, as a reply
+// variable of a proxy call used again or a struct "populated with default values" (the words of
+// ConvertFrom's documentation).  The destination starts either fresh (and is then dirtied by the
+// first conversion) or filled with an arbitrary value of its type, stale elements behind the
+// length of its slices included; the following sources are biased to nil / empty / shorter
+// containers and fewer keys, so that whatever the destination held has to go away.
+func (e *c20env) reusedDestination() {
+	rng := e.rng
+	var t1, t2 *gt
+	var kind string
+	for try := 0; ; try++ {
+		t1, t2, kind = c20GenPair(rng, rng.Pick(1, 1, 2, 2, 2, 3))
+		if try >= 4 || (t2.k >= gSlice && (compatGo(t1, t2) || rng.Chance(0.3))) {
+			break
+		}
+	}
+	dst := reflect.New(t2.rtype())
+	dirty := false
+	if rng.Bool() {
+		genValOpt(rng, t2, dst.Elem(), false, 2, vopt{stale: true})
+		dirty = true
+		e.res.Dist("dirty:filled-directly")
+	} else {
+		e.res.Dist("dirty:by-an-earlier-conversion")
+	}
+	steps := 2 + rng.Intn(2)
+	for i := 0; i < steps; i++ {
+		src := reflect.New(t1.rtype()).Elem()
+		genValOpt(rng, t1, src, false, 2, vopt{small: i == 1 || (i > 1 && rng.Bool())})
+		k := kind
+		if dirty {
+			k = "reused:" + kind
+		}
+		if !e.evaluate(t1, t2, src, dst, dirty, k) {
+			// after an error the destination is half written in map iteration order: not a reproducible starting point
+			return
+		}
+		dirty = true
+	}
+}
+
+func runC20(res *hx.Result, rng *hx.Rng, tier string, outdir string) {
+	res.Rule = "case = (source type, target type, source value, previous content of the destination) over bool/string/10 integer kinds/float32/float64/slice/map/struct, depth <= 3; " +
+		"targets are derived from the source type by widening, field permutation and re-casing (compatible) and then perturbed at one place " +
+		"(class change, narrowing, sign change, missing/extra/ambiguous field) for the rest; the destination is fresh, or re-used: left by an earlier conversion " +
+		"into the same variable or filled with an arbitrary value (stale elements behind slice lengths included), with later sources biased to empty/shorter containers; " +
+		"plus struct types declared in Go source that are different and print the same reflect String(), converted one after the other in this process; " +
+		"non-trivial = the source type contains a map or a container nested in a container; distinct by sha256 of (types, canonical value, previous content)"
+	// hx.NewRng(seed) and hx.NewRng(seed+1) produce the same stream shifted by one draw (the seed is
+	// multiplied by the generator's own increment); re-seeding from the first output decorrelates them
+	rng = hx.NewRng(rng.U64())
+	n, nReused := 1000, 350
+	if tier == "thorough" {
+		n, nReused = 40000, 8000
+	}
+	defect := probeC20(res)
+	keeps := probeC20Keeps(res)
+	cf := hx.NewCases(outdir, "C20", "From QV Require Import Conv C20Run.", "mismatches cfg_obs cases", res, "cases", "ccase")
+	cf.Extra = append(cf.Extra, "Local Open Scope string_scope.",
+		fmt.Sprintf("Definition cfg_obs : cfg := {| map_value_into_key := %s; map_keeps_old_entries := %s |}.", hx.Bool(defect), hx.Bool(keeps)))
+	e := &c20env{res: res, rng: rng, cf: cf, defect: defect, keeps: keeps}
+
+	one := func(t1, t2 *gt, kind string) {
+		src := reflect.New(t1.rtype()).Elem()
+		genVal(rng, t1, src, false, 2)
+		e.evaluate(t1, t2, src, reflect.New(t2.rtype()), false, kind)
 	}
 
 	for i := 0; i < n; i++ {
-		t1 := c20GenType(rng, rng.Pick(0, 1, 1, 2, 2, 2, 3, 3))
-		t2 := widen(rng, t1)
-		kind := "compatible"
-		switch r := rng.Intn(10); {
-		case r < 4:
-		case r < 5: // reverse direction of a compatible pair: narrowing everywhere
-			t1, t2 = t2, t1
-			kind = "reversed"
-			if compatGo(t1, t2) {
-				kind = "compatible"
-			} else {
-				var ss []site
-				sites(t2, false, &ss)
-				// a narrowed map key could collide: result would depend on iteration order
-				for _, s := range ss {
-					if s.isKey {
-						kind = ""
-					}
-				}
-				if kind == "" {
-					t1, t2 = t2, t1
-					kind = "compatible"
-				}
-			}
-		case r < 6: // unrelated top-level kinds
-			for {
-				t2 = c20GenType(rng, 1)
-				if t2.class() != t1.class() {
-					break
-				}
-			}
-			kind = "top-class-mismatch"
-		case r < 8:
-			if k := perturb(rng, t2); k != "" {
-				kind = k
-			}
-		default: // the same edits on the source side (the target keeps the compatible shape)
-			if k := perturb(rng, t1); k != "" {
-				kind = "source-" + k
-			}
-		}
+		t1, t2, kind := c20GenPair(rng, rng.Pick(0, 1, 1, 2, 2, 2, 3, 3))
 		one(t1, t2, kind)
 	}
+	for i := 0; i < nReused; i++ {
+		e.reusedDestination()
+	}
+	e.sameNameTypes()
 	if tier == "thorough" {
 		exhaustiveC20(one)
 		res.Exhaustive = true
